@@ -195,7 +195,7 @@ def subchecks(tier):
     S = []
 
     def add(name, strat, oracle, quick=50, thorough=250, exc=LinAlg, **kw):
-        S.append(SubCheck(name, strat, oracle, quick=5 * quick, thorough=6 * thorough, discard_exc=exc,
+        S.append(SubCheck(name, strat, oracle, quick=4 * quick, thorough=6 * thorough, discard_exc=exc,
                           budget_quick=45.0, budget_thorough=100.0, shards_thorough=2, **kw))
 
     # --- parafac (callback iterates, incl. the initial one) ------------------
